@@ -164,6 +164,13 @@ def main(tier, only=None):
                 ops.append(('inode layout extra_isize=%d' % x, [D('sif /f12 extra_isize %d' % x), D('sif /d1 extra_isize %d' % x), D('sif /lnk_long extra_isize %d' % x)]))
             for label, cmds in ops:
                 jobs.append((name, label, cmds))
+        # a runtime base whose directories (with an empty block, an indexed one, one holding only hard links) have their inodes in the last groups: a shrink renumbers
+        # the directories, and every directory block -- used or not -- carries the inode number in its checksum
+        from checks import c08
+        c08.E2FSCK = T['e2fsck']
+        if c08.build_hiino('hiino_csum', 'metadata_csum,64bit') is not None:
+            for tgt in (['1793'], ['1281'], ['1025'], ['769'], ['-M']):
+                jobs.append(('hiino_csum', 'resize2fs shrink %s (directory inodes renumbered)' % tgt[0], [[T['resize2fs'], '-f', '{img}'] + tgt if tgt[0] != '-M' else [T['resize2fs'], '-f', '-M', '{img}']]))
         for i, opts in enumerate((['-t', 'ext4', '-O', 'metadata_csum,64bit'], ['-t', 'ext4', '-O', 'metadata_csum,^64bit', '-g', '256'], ['-t', 'ext4', '-O', 'metadata_csum,meta_bg,^resize_inode', '-b', '2048'],
                                   ['-t', 'ext4', '-O', 'metadata_csum,bigalloc', '-C', '4096'], ['-t', 'ext4', '-O', 'metadata_csum,inline_data,quota,project', '-I', '512'],
                                   ['-t', 'ext4', '-O', 'metadata_csum,mmp,metadata_csum_seed,orphan_file'], ['-t', 'ext4', '-O', '^metadata_csum,uninit_bg', '-g', '256'],
